@@ -74,7 +74,17 @@ ObservedQueries(e) == [k \in 1..Len(e.qlog) |-> Q(e.qlog[k].c, e.qlog[k].n)]
 (* reported, never a violation (the property does not say how the data is fetched)                               *)
 Drifts(e) == Has(e, "qlog") /\ e.outcome # "panic" /\ PredictedQueries(e) # ObservedQueries(e)
 
+(* a case whose expected output is stated literally (prefixes at the ends of the address space, outside the universe) *)
+LiteralViol(e) ==
+  LET got == ToSet(e.ranges)  want == ToSet(e.expect_ranges)  where == e.via \o " (ends of the address space)" IN
+  IF e.outcome = "panic" THEN {V(e.prop, "Panic", where, e)}
+  ELSE IF e.outcome = "hang" THEN {V(e.prop, "EvaluationDoesNotTerminate", where, e)}
+  ELSE IF e.outcome # "ok" THEN {V(e.prop, "EvaluationFailedUnexpectedly", where, e)}
+  ELSE IF got = want THEN {}
+  ELSE {V(e.prop, IF got \subseteq want THEN "PrefixesMissing" ELSE "WrongPrefixes", where, e)}
+
 LineViol(e) ==
+  IF Has(e, "expect_ranges") THEN LiteralViol(e) ELSE
   LET want == Eval(Expr(e.expr), Db(e.db), Errs(e.errs), 3)
       prop == e.prop
       where == e.via \o (IF e.pos > 1 THEN " after-other-evaluations" ELSE "") IN
